@@ -19,6 +19,8 @@ FUNCTIONS = ["SuccessionDiagram.from_rules (bnet/aeon/sbml)", "petri_net_transla
              "SuccessionDiagram._expand_one_node (sorted children)", "petri_net_translation.extract_variable_names/extract_source_variables",
              "petri_net_translation.sanitize_network_names"]
 NEWNAMES = ["zeta", "Y_2", "m", "Kappa9"]
+# names that contain the Petri-net place prefixes themselves
+PREFIXNAMES = ["tgfb1_r", "b0_b0_q", "xb0_1", "b1_"]
 
 
 def variants(n):
@@ -32,7 +34,8 @@ def variants(n):
          ("rename+rotate", ident[1:] + ident[:1], [0] * n, NEWNAMES[:n], "dnf", "bnet"),
          ("flip0", ident, [1] + [0] * (n - 1), base, "dnf", "bnet"),
          ("reverse+flipall", ident[::-1], [1] * n, [nm + "_x" for nm in base], "cnf", "bnet"),
-         ("order-only", ident[::-1], [0] * n, base[::-1], "dnf", "bnet")]
+         ("order-only", ident[::-1], [0] * n, base[::-1], "dnf", "bnet"),
+         ("rename-prefix", ident, [0] * n, PREFIXNAMES[:n], "dnf", "bnet")]
     return V
 
 
@@ -282,7 +285,7 @@ def replay(rec):
 def tasks(tier, seed, selftest=False):
     T = []
     q = tier == "quick"
-    groups = [["cnf", "ite"], ["aeon", "sbml"], ["rename+rotate", "order-only"], ["flip0", "reverse+flipall"]]
+    groups = [["cnf", "ite"], ["aeon", "sbml"], ["rename+rotate", "order-only"], ["flip0", "reverse+flipall"], ["rename-prefix"]]
     for g in groups:
         T.append({"prop": PROP, "family": "U2", "label": "U2/" + "+".join(g), "timebox": 60 if q else 600, "seed": seed, "params": {"which": g, "selftest": selftest}})
         if selftest:
@@ -298,7 +301,7 @@ def tasks(tier, seed, selftest=False):
 def main(tier, seed, t0, selftest=False):
     results = common.run_tasks(tasks(tier, seed, selftest))
     return common.finish(PROP, tier, seed, "model_checking", results, t0, selftest=selftest, functions=FUNCTIONS,
-                         bounds={"presentations": "CNF, nested ITE, aeon text, sbml text, renamed+rotated declaration order, order reversed only, variable 0 negated, all variables negated + reversed + renamed + CNF",
+                         bounds={"presentations": "CNF, nested ITE, aeon text, sbml text, renamed+rotated declaration order, renamed to names containing the place prefixes b0_/b1_, order reversed only, variable 0 negated, all variables negated + reversed + renamed + CNF",
                                  "families": "U2, D3 (quick, time-boxed); + S1C2 (thorough)",
                                  "sanitisation": "2 symbolic names of length <= 2 and 3 of length 1 (quick); <= 3 / <= 2 (thorough) over the alphabet " + "".join(ALPH) + "; classes = (lengths, per-character validity, identity of valid characters)",
                                  "outside": "AEON's parsers/serialisers themselves (aeon and sbml text is produced by AEON from the bnet form)"},
